@@ -9,12 +9,14 @@ import (
 	"encoding/hex"
 	"encoding/json"
 	"fmt"
+	"math/rand/v2"
 	"os"
 	"strconv"
 	"strings"
 	"sync"
 	"time"
 
+	"go.sia.tech/core/consensus"
 	"go.sia.tech/core/types"
 	"verif/harness/lab/chainlab"
 	"verif/harness/lab/p2plab"
@@ -241,4 +243,59 @@ func parseStreamReplay(replay string) (stream uint64, special string, ok bool) {
 		special = parts[1]
 	}
 	return n, special, true
+}
+
+// ---- what the victim passes on to honest peers ---------------------------------
+
+// auditRelays labels everything an honest lab observer received from the
+// victim through relay RPCs with the pure oracle: a relayed outline must not be
+// a block the oracle labels invalid (or lack work), a relayed header must be a
+// valid header, a relayed transaction set must be valid on its basis.
+func auditRelays(t *chainlab.Tree, o *p2plab.Byz, rng *rand.Rand) (fs []p2plab.Finding, judged int) {
+	hs, os, sets := o.RelayLog()
+	for _, ol := range os {
+		parent := t.ByID[ol.ParentID]
+		if parent == nil {
+			continue
+		}
+		cs := parent.State()
+		id := ol.ID(cs)
+		if n := t.ByID[id]; n != nil {
+			judged++
+			if !n.ChainValid {
+				fs = append(fs, p2plab.Finding{Sig: "victim-relayed-invalid-block", What: fmt.Sprintf("the victim relayed the outline of node %d (height %d) to an honest peer although the block is invalid: %s", n.Idx, n.Height, n.Err), Detail: map[string]any{"corruption": n.Corruption}})
+			}
+		} else if parent.ChainValid && id.CmpWork(cs.PoWTarget()) < 0 {
+			judged++
+			fs = append(fs, p2plab.Finding{Sig: "victim-relayed-invalid-block", What: fmt.Sprintf("the victim relayed an outline on node %d whose id does not meet the target", parent.Idx)})
+		}
+	}
+	for _, h := range hs {
+		if n := t.ByID[h.ID()]; n != nil {
+			judged++
+			if !n.OrphanValid {
+				fs = append(fs, p2plab.Finding{Sig: "victim-relayed-invalid-header", What: fmt.Sprintf("the victim relayed the header of node %d to an honest peer although it is invalid: %s", n.Idx, n.Err)})
+			}
+		} else if parent := t.ByID[h.ParentID]; parent != nil {
+			judged++
+			if consensus.ValidateHeader(parent.State(), h) != nil {
+				fs = append(fs, p2plab.Finding{Sig: "victim-relayed-invalid-header", What: fmt.Sprintf("the victim relayed a header on node %d that fails header validation", parent.Idx)})
+			}
+		}
+	}
+	for _, set := range sets {
+		n := t.ByID[set.Index.ID]
+		if n == nil || !n.ChainValid {
+			continue
+		}
+		judged++
+		bld := n.L.NewBuilder(rng)
+		for _, txn := range set.Transactions {
+			if !bld.TryV2("relayed", txn.DeepCopy()) {
+				fs = append(fs, p2plab.Finding{Sig: "victim-relayed-invalid-transaction-set", What: fmt.Sprintf("the victim relayed a transaction set with basis node %d that is invalid on that basis", n.Idx)})
+				break
+			}
+		}
+	}
+	return
 }
